@@ -236,6 +236,44 @@ class Ref:
         raise ValueError(k)
 
 
+class Unmodelled(Exception):
+    """the run-time reference meets a context outside the generated domain"""
+
+
+def ref_mkf_call(node, seen, c):
+    """documented behaviour of MakeFilename(fmt) on a value with context c (returns the new context):
+    an existing output.filename is kept; otherwise the name is formatted from the static context seen, the
+    run-time context taking precedence key by key; output.prefix / output.suffix are added to the name and
+    removed; if the name cannot be formatted nothing changes"""
+    c = copy.deepcopy(c)
+    out = c.get("output")
+    if out is not None and not isinstance(out, dict):
+        raise Unmodelled()
+    if out is not None and "filename" in out:
+        return c
+    full = dict(seen)
+    full.update(c)
+    tpl = parse_template(node["fmt"])
+    try:
+        name = node["fmt"] if tpl is None else ref_format(tpl, full)
+    except RefKeyError:
+        return c
+    for key in ("prefix", "suffix"):
+        if out is not None and key in out and not isinstance(out[key], str):
+            raise Unmodelled()
+    pre = out.get("prefix", "") if out else ""
+    suf = out.get("suffix", "") if out else ""
+    name = pre + name + suf
+    if pre:
+        del out["prefix"]
+    if suf:
+        del out["suffix"]
+    return ref_update(c, {"output": {"filename": name}})
+
+
+SRC_FLOW = [{"r": 0}, {"r": 1, "a": "src"}]
+
+
 def ref_run(node, exp, idx, flow):
     """Run-time reference: what comes out for the flow `flow` (list of (data, ctx)); static context enters only
     through UpdateContextFromStatic (recursive update with what it saw) and through the name MakeFilename derived.
@@ -244,25 +282,11 @@ def ref_run(node, exp, idx, flow):
     if k == "ucfs":
         return [(d, ref_update(c, exp[idx]["seen"])) for d, c in flow], idx + 1
     if k == "mkf":
-        out = []
-        tpl = parse_template(node["fmt"])
-        for d, c in flow:
-            c = copy.deepcopy(c)
-            if not ("output" in c and "filename" in c["output"]):
-                full = dict(exp[idx]["seen"])
-                full.update(c)
-                try:
-                    name = node["fmt"] if tpl is None else ref_format(tpl, full)
-                except RefKeyError:
-                    name = None
-                if name is not None:
-                    c = ref_update(c, {"output": {"filename": name}})
-            out.append((d, c))
-        return out, idx + 1
+        return [(d, ref_mkf_call(node, exp[idx]["seen"], c)) for d, c in flow], idx + 1
     if k in ("set", "store", "write", "cache", "data"):
         return flow, idx + 1
     if k == "src":
-        return [(i, {"r": i}) for i in range(2)], idx + 1
+        return [(i, copy.deepcopy(c)) for i, c in enumerate(SRC_FLOW)], idx + 1
     if k == "seq":
         idx += 1
         for c in node["c"]:
@@ -287,8 +311,8 @@ class _Src(object):
     """first element of a Source: generates the flow"""
 
     def __call__(self):
-        for i in range(2):
-            yield (i, {"r": i})
+        for i, c in enumerate(SRC_FLOW):
+            yield (i, copy.deepcopy(c))
 
 
 def _ident(val):
@@ -330,7 +354,9 @@ def build(node, objs):
     elif k == "write":
         o = lena.output.Write(node["fmt"], verbose=False)
     elif k == "cache":
-        o = lena.flow.Cache(node["fmt"])
+        # recompute=True: an existing cache file (of another Cache of the tree with the same name) is never
+        # loaded instead of the flow; that is C18's subject
+        o = lena.flow.Cache(node["fmt"], recompute=True)
     elif k == "data":
         o = _ident
     elif k == "src":
@@ -348,7 +374,8 @@ def build(node, objs):
         for c in node["c"]:
             slots.append(len(objs))
             cs.append(build(c, objs))
-        o = lena.core.Split(cs)
+        # bufsize=None: the whole flow is one buffer (what the model's `run` describes)
+        o = lena.core.Split(cs, bufsize=None)
         # a tuple branch became a Sequence inside the Split: observe that one
         for b, sl, made in zip(node["c"], slots, o._seqs):
             if b["kind"] == "tuple":
@@ -502,36 +529,81 @@ def oracle(case, res):
 # ------------------------------------------------------------------------------------------------
 # model side
 
-def _enc_leaf(node):
+OUT_KEYS = ["output", "filename", "prefix", "suffix"]
+
+
+def _ctx_keys(c, acc):
+    if isinstance(c, dict):
+        for k, v in c.items():
+            acc.add(k)
+            _ctx_keys(v, acc)
+
+
+def alphabet(case):
+    """the key alphabet of the case: every key (component) that can occur in a context, sorted"""
+    acc = set(OUT_KEYS)
+    for t in [case["tree"]]:
+        for node in preorder(t):
+            if node["k"] == "set":
+                acc.update(p for p in node["key"].split("."))
+                tpl = parse_template(node["val"]) if isinstance(node["val"], str) else None
+            elif node["k"] in ("mkf", "write", "cache"):
+                tpl = parse_template(node["fmt"])
+            else:
+                tpl = None
+            for f in (tpl or [])[1::2]:
+                acc.update(p for p in f.split(".") if p)
+    for c in (case.get("flow") or []) + SRC_FLOW:
+        _ctx_keys(c, acc)
+    return sorted(acc)
+
+
+def _enc_tpl(tpl, ix):
+    out = []
+    for i, x in enumerate(tpl):
+        out.append(x if i % 2 == 0 else [ix[p] for p in x.split(".") if p])
+    return out
+
+
+def _enc_leaf(node, ix):
     k = node["k"]
     if k == "set":
         v = node["val"]
         tpl = parse_template(v) if isinstance(v, str) else None
-        return {"k": "set", "key": node["key"].split("."), "val": v if tpl is None else None, "tpl": tpl}
+        return {"k": "set", "key": [ix[p] for p in node["key"].split(".")], "val": v if tpl is None else None,
+                "tpl": None if tpl is None else _enc_tpl(tpl, ix)}
     if k in ("mkf", "write", "cache"):
         tpl = parse_template(node["fmt"])
-        return {"k": k, "tpl": tpl if tpl is not None else [node["fmt"]]}
+        return {"k": k, "tpl": _enc_tpl(tpl, ix) if tpl is not None else [node["fmt"]]}
     return {"k": k}
 
 
-def enc_tree(node):
+def enc_tree(node, ix):
     if node["k"] == "seq":
         return {"k": "seq", "kind": "Source" if node["kind"] == "Source" else "Sequence",
-                "c": [enc_tree(c) for c in node["c"]]}
+                "c": [enc_tree(c, ix) for c in node["c"]]}
     if node["k"] == "split":
-        return {"k": "split", "c": [enc_tree(c) for c in node["c"]]}
-    return _enc_leaf(node)
+        return {"k": "split", "c": [enc_tree(c, ix) for c in node["c"]]}
+    return _enc_leaf(node, ix)
 
 
 def model_requests(case):
-    req = {"op": "build", "mode": "copy", "tree": enc_tree(case["tree"]), "flow": case.get("flow")}
-    return [req]
+    names = alphabet(case)
+    ix = {nm: i for i, nm in enumerate(names)}
+    return [{"op": "build", "names": names, "out": [ix[k] for k in OUT_KEYS], "tree": enc_tree(case["tree"], ix),
+             "flow": case.get("flow"), "src": SRC_FLOW}]
 
 
-def _strip(rec):
+def _strip(node, rec):
+    """the implementation's record of a node in the vocabulary of the model's reply"""
+    rec = dict(rec)
     if isinstance(rec.get("get"), dict) and "cls" in rec["get"]:
         g = rec["get"]
-        return dict(rec, get={"e": g["e"]} if g["cls"] == "LenaKeyError" else {"other": g["cls"]})
+        rec["get"] = {"e": g["e"]} if g["cls"] == "LenaKeyError" else {"other": g["cls"]}
+    if node["k"] in ("write", "cache"):
+        rec["name"] = {"unformatted": True} if rec["name"] == node["fmt"] else rec["name"]
+    if node["k"] == "mkf" and rec["name"] is None:
+        rec["name"] = {"absent": True}
     return rec
 
 
@@ -539,19 +611,23 @@ def compare(case, res, replies):
     m = replies[0]
     if "err" in m:
         return f"model driver error: {m['err']}"
-    got = [_strip(r) for r in res["nodes"]]
+    got = [_strip(n, r) for n, r in zip(preorder(case["tree"]), res["nodes"])]
     if got != m["nodes"]:
         for i, (a, b) in enumerate(zip(got, m["nodes"])):
             if a != b:
-                return f"node #{i}: impl {a} vs model {b}"
+                return f"node #{i}: impl {a} vs model (build/setCtx/getCtx) {b}"
         return f"impl has {len(got)} nodes, model {len(m['nodes'])}"
+    # the model's specification fold against the harness's independent reference fold
+    ref = Ref(case["tree"])
+    want = ref.top[1] if ref.top[0] == "ok" else {"e": ref.top[1]}
+    if m["fold"] != want:
+        return f"model fold {m['fold']} vs reference prefix fold {want}"
     if res.get("out") is not None:
         o = res["out"]
         if "e" in o:
-            if m.get("out") != {"e": o["e"]}:
-                return f"run: impl {o} vs model {m.get('out')}"
-        elif m.get("out") != {"r": [list(x) for x in o["r"]]}:
-            return f"run: impl {o['r']} vs model {m.get('out')}"
+            return f"run: impl raised {o}, model (run) {m.get('out')}"
+        if m.get("out") != {"r": [list(x) for x in o["r"]]}:
+            return f"run: impl {o['r']} vs model (run) {m.get('out')}"
     return None
 
 
@@ -664,16 +740,30 @@ def mutate_after(rng, tree, path, pformat):
     return t
 
 
-def _renders_dict(tree):
-    """True if the reference would have to render a dictionary into a string (outside the generated domain)"""
+def _renders_dict(tree, flow=None):
+    """True if the reference would have to render a dictionary into a string, statically or when `flow` is
+    run (outside the generated domain: the model does not describe `str(dict)`)"""
     try:
-        Ref(tree)
-    except DictRendered:
+        ref = Ref(tree)
+        if flow is not None and ref.top[0] == "ok":
+            ref_run(tree, ref.exp, 0, [(i, copy.deepcopy(c)) for i, c in enumerate(flow)])
+    except (DictRendered, Unmodelled):
         return True
     return False
 
 
-FLOWS = [[{"r": 0}], [{"r": 0}, {"a": "rt", "r": 1}], [], [{"output": {"filename": "given"}}, {"b": {"y": 7}}]]
+FLOWS = [[{"r": 0}], [{"r": 0}, {"a": "rt", "r": 1}], [], [{"output": {"filename": "given"}}, {"b": {"y": 7}}],
+         [{"output": {"prefix": "P_", "suffix": "_S", "x": 1}, "c": "rc"}, {"output": {"suffix": ""}, "a": {"x": 5}}]]
+
+
+def _flow_for(tree, flow):
+    """the flow to run through the tree, or None: two Caches could write the same file (C18's subject), or the
+    flow would make an element render a dictionary"""
+    if sum(1 for nd in preorder(tree) if nd["k"] == "cache") > 1:
+        return None
+    if _renders_dict(tree, flow):
+        return None
+    return flow
 
 
 def rand_case(rng, depth=3, pformat=0.3, nvariants=2):
@@ -681,7 +771,7 @@ def rand_case(rng, depth=3, pformat=0.3, nvariants=2):
         tree = rand_top(rng, depth, pformat)
         if _renders_dict(tree):
             continue
-        case = {"tree": tree, "flow": rng.choice(FLOWS)}
+        case = {"tree": tree, "flow": _flow_for(tree, rng.choice(FLOWS))}
         ps = [p for p in paths(tree) if cone(tree, p)[1]["k"] in PROBES]
         vs = []
         if ps and nvariants:
@@ -746,9 +836,13 @@ def _trees(n, depth, leaves):
 def exhaustive_cases(nmax, depth, leaves, source=False):
     for n in range(0, nmax + 1):
         for cs in _forests(n, depth, leaves):
-            yield {"tree": {"k": "seq", "kind": "Sequence", "c": cs}, "flow": FLOWS[1]}
+            t = {"k": "seq", "kind": "Sequence", "c": cs}
+            if not _renders_dict(t):
+                yield {"tree": t, "flow": _flow_for(t, FLOWS[1])}
             if source:
-                yield {"tree": {"k": "seq", "kind": "Source", "c": [{"k": "src"}] + cs}, "flow": []}
+                t = {"k": "seq", "kind": "Source", "c": [{"k": "src"}] + cs}
+                if not _renders_dict(t):
+                    yield {"tree": t, "flow": _flow_for(t, [])}
 
 
 def gen_cases(ctx):
@@ -761,7 +855,6 @@ def gen_cases(ctx):
         cases.extend(exhaustive_cases(4, 2, EX_LEAVES, source=True))
         cases.extend(exhaustive_cases(2, 2, EX_LEAVES + EX_LEAVES_MORE, source=True))
         n_rand = 100000
-    cases = [c for c in cases if not _renders_dict(c["tree"])]
     for i in range(n_rand):
         pformat = (0.0, 0.3, 0.6)[i % 3]
         cases.append(rand_case(rng, depth=3, pformat=pformat))
@@ -817,10 +910,12 @@ def shrink(case):
             yield dict(case, variants=case["variants"][:i] + case["variants"][i + 1:])
     for t in _shrink_tree(case["tree"]):
         if not _renders_dict(t):
-            yield dict(case, tree=t)
+            yield dict(case, tree=t, flow=None if case.get("flow") is None else _flow_for(t, case["flow"]))
     for i, v in enumerate(case.get("variants") or []):
         for s in _shrink_tree(v):
             if not _renders_dict(s):
                 yield dict(case, variants=case["variants"][:i] + [s] + case["variants"][i + 1:])
     if case.get("flow"):
         yield dict(case, flow=case["flow"][:-1])
+    if case.get("flow") is not None:
+        yield dict(case, flow=None)
